@@ -424,7 +424,7 @@ func judge(prop string, seed uint64, failures []Replay, info *prepInfo, bins map
 		if isKnown {
 			continue
 		}
-		path := filepath.Join(verifDir, "replays", fmt.Sprintf("%s-seed%d-%s-%s.json", prop, seed, final.Class, f.Subseed))
+		path := filepath.Join(envOr("VERIF_REPLAY_DIR", filepath.Join(verifDir, "replays")), fmt.Sprintf("%s-seed%d-%s-%s.json", prop, seed, final.Class, f.Subseed))
 		os.MkdirAll(filepath.Dir(path), 0o755)
 		b, _ := json.MarshalIndent(final, "", " ")
 		os.WriteFile(path, append(b, '\n'), 0o644)
